@@ -2,6 +2,8 @@ package sim
 
 import (
 	"bytes"
+	"encoding/base64"
+	"encoding/json"
 	"fmt"
 	"strings"
 )
@@ -23,7 +25,26 @@ func (r *Run) checkMinted(val, kind string) {
 		}
 		key = b
 	case strings.Count(val, ".") == 2:
-		return // JWT access token: covered by checkJWTAccessToken
+		// JWT access token: signature and claims are covered by checkJWTAccessToken; here: a fresh token never repeats an
+		// earlier one, neither as a whole nor in its jti
+		if prev, dup := r.keyParts["jwt:"+val]; dup {
+			r.violate("C06", "minted-value-repeated", kind+":jwt", "a minted JWT %s is identical to an earlier %s", kind, prev)
+		}
+		r.keyParts["jwt:"+val] = kind
+		if parts := strings.Split(val, "."); len(parts) == 3 {
+			if pb, err := base64.RawURLEncoding.DecodeString(parts[1]); err == nil {
+				var claims map[string]interface{}
+				if json.Unmarshal(pb, &claims) == nil {
+					if jti, _ := claims["jti"].(string); jti != "" {
+						if prev, dup := r.keyParts["jti:"+jti]; dup {
+							r.violate("C06", "minted-value-repeated", kind+":jti", "the jti of a minted JWT %s repeats that of an earlier %s", kind, prev)
+						}
+						r.keyParts["jti:"+jti] = kind
+					}
+				}
+			}
+		}
+		return
 	default:
 		_, k, _, ok := splitOpaque(val)
 		if !ok {
